@@ -243,6 +243,9 @@ PROPS["C03"]["level_text"] += (
 PROPS["C03"]["level_text"] += (
     "; the prologue of blocks_to_bytes as well (C03_encoder_prologue_is_the_source: tables, varnames seeded with the parameter names, docstring pinned "
     "at slot 0 whenever it is not None)")
+PROPS["C09"]["level_text"] += (
+    "; the state the decoder starts from (tables, parameters preset as found, the docstring - the empty one included - marked as found at index 0) "
+    "is re-translated and tied: C09_decoder_prologue_is_the_source")
 PROPS["C04"]["level_text"] += (
     "; the four functions of _args.py are tied to the source by proof for ALL inputs (C04_args_functions_are_the_source: Gen/SrcArgs.v, "
     "re-translated on every run, equals Model/Args.v)")
